@@ -79,6 +79,12 @@ Walk(c, k, sp, ap, bad) ==
                     ELSE IF o.res = "ok" /\ ~c.exposespawn /\ o.env # "" THEN "EnvOnlyIfExposed"
                     ELSE IF o.res = "ok" /\ o.env \notin {"", "from" \o o.peer} THEN "EnvOnlyIfExposed"
                     ELSE "")
+          \* a request arriving from o.peer whose parent pid names the other peer: who is connected counts, not what the request claims
+          ELSE IF o.op = "fspawn" THEN
+               Walk(c, k + 1, sp, ap,
+                    IF o.res = "ok" /\ ~Enabled(sp, o.name, o.peer) THEN "OnlyEnabled"
+                    ELSE IF o.res = "ok" /\ ~c.spawnb THEN "FlagsRespected"
+                    ELSE "")
           ELSE IF o.op = "app" THEN
                Walk(c, k + 1, sp, ap,
                     IF o.res = "ok" /\ ~Enabled(ap, o.name, o.peer) THEN "OnlyEnabled"
